@@ -93,12 +93,19 @@ Proof.
   intros b m Hnd Hin Hm. unfold put_existing. apply orb_true_iff in Hm as [Hna|Hs].
   2:{ apply bytes_eqb_eq in Hs. rewrite <- Hs, (has_key_In b m Hin). eexists; reflexivity. }
   destruct (has_key k_sync b); [eexists; reflexivity|].
-  set (ks := (match extract_expiry b with ExpTaken => [k_exp] | _ => [] end) ++ ne_removed).
-  assert (H1 : In m (remove_keys ks b)).
-  { apply remove_keys_In. split; [exact Hin|]. apply never_allowed_not_ne; [exact Hna|].
-    intros x Hx. subst ks. apply in_app_iff in Hx as [Hx|Hx]; [|now right].
-    destruct (extract_expiry b); try contradiction. destruct Hx as [<-|[]]. now left. }
-  destruct (validate_new_body_rejects _ m (remove_keys_NoDup ks b Hnd) H1 Hna) as [s ->]. eexists; reflexivity.
+  assert (Hgo : forall l, (forall x, In x l -> x = k_exp) ->
+            exists s, match validate_new_body (remove_keys (l ++ ne_removed) b) with
+                      | Some s => ORej s
+                      | None => if match kind_of k_deleted b with Some KTrue => true | _ => false end
+                                then ODeleted else OStored (stored (remove_keys (l ++ ne_removed) b))
+                      end = ORej s).
+  { intros l Hl.
+    assert (H1 : In m (remove_keys (l ++ ne_removed) b)).
+    { apply remove_keys_In. split; [exact Hin|]. apply never_allowed_not_ne; [exact Hna|].
+      intros x Hx. apply in_app_iff in Hx as [Hx|Hx]; [left; symmetry; now apply Hl|now right]. }
+    destruct (validate_new_body_rejects _ m (remove_keys_NoDup _ b Hnd) H1 Hna) as [s ->]. eexists; reflexivity. }
+  destruct (extract_expiry b); [apply Hgo; intros x []|apply Hgo; intros x []| |eexists; reflexivity].
+  apply Hgo. intros x [<-|[]]. reflexivity.
 Qed.
 
 Lemma put_existing_stored : forall b st, NoDup (map mkey b) -> put_existing b = OStored st ->
@@ -106,7 +113,15 @@ Lemma put_existing_stored : forall b st, NoDup (map mkey b) -> put_existing b = 
 Proof.
   intros b st Hnd H k v. unfold put_existing in H.
   destruct (has_key k_sync b); [discriminate|].
-  set (ks := (match extract_expiry b with ExpTaken => [k_exp] | _ => [] end) ++ ne_removed) in *.
+  assert (Hbad : extract_expiry b <> ExpBad) by (intros Hx; rewrite Hx in H; discriminate).
+  set (ks := (match extract_expiry b with ExpTaken => [k_exp] | _ => [] end) ++ ne_removed).
+  assert (H' : match validate_new_body (remove_keys ks b) with
+               | Some s => ORej s
+               | None => if match kind_of k_deleted b with Some KTrue => true | _ => false end
+                         then ODeleted else OStored (stored (remove_keys ks b))
+               end = OStored st).
+  { subst ks. destruct (extract_expiry b); try exact H. now contradiction Hbad. }
+  clear H. rename H' into H.
   destruct (validate_new_body (remove_keys ks b)); [discriminate|].
   destruct (match kind_of k_deleted b with Some KTrue => true | _ => false end); [discriminate|].
   inversion H; subst st. clear H. rewrite stored_In.
@@ -115,8 +130,8 @@ Proof.
     pose proof (kind_of_In b (k, v, e) Hnd Hin) as Hk. cbn [mkey mkind fst snd] in Hk.
     subst ks. unfold extract_expiry.
     destruct (bytes_eqb k k_exp) eqn:Ek.
-    - apply bytes_eqb_eq in Ek. subst k. rewrite Hk.
-      destruct v; cbn [vk_eqb andb orb app]; vm_compute; split; congruence.
+    - apply bytes_eqb_eq in Ek. subst k. unfold extract_expiry in Hbad. rewrite Hk in *.
+      destruct v; try (now contradiction Hbad); cbn [vk_eqb andb orb app]; vm_compute; split; congruence.
     - cbn [andb]. rewrite orb_false_r.
       assert (Hm : forall l, mem k (l ++ ne_removed) = mem k l || mem k ne_removed).
       { intros l. unfold mem. now rewrite existsb_app. }
@@ -207,7 +222,7 @@ Qed.
 
 (* ================= no reserved member is ever stored ================= *)
 Lemma reserved_everywhere_cases : forall k, reserved_everywhere k = true ->
-  k = k_id \/ k = k_rev \/ k = k_revisions \/ k = k_sync \/ k = k_purged \/ has_prefix k_sync_ k = true.
+  k = k_id \/ k = k_rev \/ k = k_revisions \/ k = k_cv \/ k = k_sync \/ k = k_purged \/ has_prefix k_sync_ k = true.
 Proof.
   intros k H. unfold reserved_everywhere in H. apply orb_true_iff in H as [H|H]; [|tauto].
   apply mem_In in H. cbn [In] in H. intuition.
@@ -224,7 +239,7 @@ Lemma reserved_refused_or_consumed : forall e b m, NoDup (map mkey b) -> In m b 
   (exists s, under e b = ORej s) \/ consumed_e e m = true.
 Proof.
   intros e b [[k v] esc] Hnd Hin Hr. cbn [mkey fst] in Hr.
-  destruct (reserved_everywhere_cases k Hr) as [->|[->|[->|[->|[->|Hp]]]]].
+  destruct (reserved_everywhere_cases k Hr) as [->|[->|[->|[->|[->|[->|Hp]]]]]].
   - (* _id *) destruct e; try (right; reflexivity); left.
     + apply (under_rejects EBlip b _ Hnd Hin). cbn [mkey fst]. now rewrite orb_true_r.
     + apply (under_rejects EImport b _ Hnd Hin). cbn [mkey fst]. now rewrite orb_true_r.
@@ -234,6 +249,10 @@ Proof.
     + apply (under_rejects EImport b _ Hnd Hin). cbn [mkey fst]. now rewrite orb_true_r.
     + apply (under_rejects EImportFeed b _ Hnd Hin). cbn [mkey fst]. now rewrite orb_true_r.
   - (* _revisions *) destruct e; try (right; reflexivity); left.
+    + apply (under_rejects EBlip b _ Hnd Hin). cbn [mkey fst]. now rewrite orb_true_r.
+    + apply (under_rejects EImport b _ Hnd Hin). cbn [mkey fst]. now rewrite orb_true_r.
+    + apply (under_rejects EImportFeed b _ Hnd Hin). cbn [mkey fst]. now rewrite orb_true_r.
+  - (* _cv *) destruct e; try (right; reflexivity); left.
     + apply (under_rejects EBlip b _ Hnd Hin). cbn [mkey fst]. now rewrite orb_true_r.
     + apply (under_rejects EImport b _ Hnd Hin). cbn [mkey fst]. now rewrite orb_true_r.
     + apply (under_rejects EImportFeed b _ Hnd Hin). cbn [mkey fst]. now rewrite orb_true_r.
@@ -264,7 +283,7 @@ Proof.
   (* consumed: then it is not among the stored members; and no entry point that keeps the bytes consumes it *)
   destruct m as [[k v] esc]. destruct vb.
   - destruct (accept_verbatim e raw tr0 ms Hr) as [-> | [-> | ->]]; cbn [mkey fst] in Hres;
-      destruct (reserved_everywhere_cases k Hres) as [->|[->|[->|[->|[->|Hp]]]]];
+      destruct (reserved_everywhere_cases k Hres) as [->|[->|[->|[->|[->|[->|Hp]]]]]];
       try (vm_compute in Hc; discriminate);
       unfold consumed_e in Hc; cbn [wpath_of consumed mkey mkind fst snd] in Hc.
     apply orb_true_iff in Hc as [Hc|Hc]; apply andb_true_iff in Hc as [Hc _]; apply bytes_eqb_eq in Hc; subst k; vm_compute in Hp; discriminate.
@@ -323,6 +342,11 @@ Proof.
   destruct (extract_expiry b); congruence.
 Qed.
 
+Lemma put_existing_exp : forall b st, put_existing b = OStored st -> extract_expiry b <> ExpBad.
+Proof.
+  intros b st H Hx. unfold put_existing in H. destruct (has_key k_sync b); [discriminate|]. rewrite Hx in H. discriminate.
+Qed.
+
 Lemma blip_exp : forall b st, blip_rev_gen true b = OStored st -> extract_expiry b <> ExpBad.
 Proof.
   intros b st H. unfold blip_rev_gen in H. destruct (existsb _ b); [discriminate|].
@@ -368,13 +392,14 @@ Proof.
     + unfold post in Hu. destruct (nonnull k_rev (dedupe raw) || nonnull k_cv (dedupe raw)); [discriminate|].
       destruct (exp_kind _ v esc Hnd Hin (db_put_exp _ _ Hu)) as [-> | ->]; [reflexivity|vm_compute in Hc; discriminate].
     + destruct (exp_kind _ v esc Hnd Hin (db_put_exp _ _ Hu)) as [-> | ->]; [reflexivity|vm_compute in Hc; discriminate].
-    + destruct v; try reflexivity. vm_compute in Hc. discriminate.
-    + destruct v; try reflexivity. vm_compute in Hc. discriminate.
+    + unfold rest_put_ne in Hu. destruct (match kind_of k_id (dedupe raw) with Some KStr => true | _ => false end); [discriminate|].
+      destruct (exp_kind _ v esc Hnd Hin (put_existing_exp _ _ Hu)) as [->| ->]; [reflexivity|vm_compute in Hc; discriminate].
+    + destruct (exp_kind _ v esc Hnd Hin (put_existing_exp _ _ Hu)) as [->| ->]; [reflexivity|vm_compute in Hc; discriminate].
     + destruct (exp_kind _ v esc Hnd Hin (blip_exp _ _ Hu)) as [-> | ->]; [reflexivity|vm_compute in Hc; discriminate].
     + exfalso. eapply Hrej; [reflexivity|]. vm_compute. now rewrite ?orb_true_r.
     + exfalso. eapply Hrej; [reflexivity|]. vm_compute. now rewrite ?orb_true_r.
   - (* _cv *) destruct e; try (vm_compute in Hc; discriminate); try discriminate;
-      unfold leak; cbn [mem existsb]; rewrite ?bytes_eqb_refl; now rewrite ?orb_true_r.
+      exfalso; (eapply Hrej; [reflexivity|]); vm_compute; now rewrite ?orb_true_r.
   - (* _deleted *) destruct e; try (vm_compute in Hc; discriminate); try discriminate;
       try (exfalso; (eapply Hrej; [reflexivity|]); vm_compute; now rewrite ?orb_true_r);
       unfold leak; cbn [mem existsb]; rewrite ?bytes_eqb_refl; now rewrite ?orb_true_r.
@@ -395,45 +420,42 @@ Proof.
 Qed.
 
 (* ================= non-objects ================= *)
-Theorem nonobject_never_stored : forall e t, (t = TInvalid \/ t = TNonObj \/ t = TNull) ->
-  (exists s, accept e t = RRej s) \/ accept e t = RPanic.
+Theorem nonobject_never_stored : forall e t, (t = TInvalid \/ t = TNonObj \/ t = TNull) -> exists s, accept e t = RRej s.
 Proof.
-  intros e t [-> | [-> | ->]]; destruct e; cbn [accept]; (left; eexists; reflexivity) || (right; reflexivity).
+  intros e t [->|[->| ->]]; destruct e; cbn [accept]; eexists; reflexivity.
 Qed.
 
-(* ... and the two places where "refused" is a panic *)
-Theorem null_panics_exactly : forall e t, accept e t = RPanic <-> t = TNull /\ (e = EPost \/ e = EBlip).
+(* no request text makes a handler panic *)
+Theorem never_panics : forall e t, accept e t <> RPanic.
 Proof.
-  intros e t. split.
-  - intros H. destruct t as [| | |raw tr].
-    + destruct e; discriminate.
-    + destruct e; discriminate.
-    + destruct e; try discriminate; tauto.
-    + exfalso. destruct e; cbn [accept] in H; try discriminate; try (destruct tr; [discriminate|]);
-        match type of H with lift _ ?o = _ => destruct o; discriminate end.
-  - intros [-> [-> | ->]]; reflexivity.
+  intros e t H. destruct t as [| | |raw tr].
+  - destruct e; discriminate.
+  - destruct e; discriminate.
+  - destruct e; discriminate.
+  - destruct e; cbn [accept] in H; try discriminate; try (destruct tr; [discriminate|]);
+      match type of H with lift _ ?o = _ => destruct o; discriminate end.
 Qed.
 
 (* ================= bytes after the object ================= *)
-(* which entry points store a text with bytes after the object: exactly the ones that keep the received bytes *)
-Theorem trailing_stored_only_verbatim : forall e t r tms, accept e t = r -> stored_text t r = Some (tms, true) ->
-  e = EBlip \/ e = EImport.
+(* no gateway entry point stores bytes after the object; the only stored text that has them is one an SDK wrote and
+   the on-demand import adopted without rewriting it *)
+Theorem trailing_stored_only_import : forall e t r tms, accept e t = r -> stored_text t r = Some (tms, true) -> e = EImport.
 Proof.
   intros e t r tms Hr Hst. destruct r as [s| |ms vb|]; try discriminate. destruct vb.
   - destruct (accept_stored_obj e t ms true Hr) as [raw [tr ->]]. cbn [stored_text] in Hst. inversion Hst; subst.
-    destruct (accept_verbatim e raw true ms Hr) as [-> | [-> | ->]]; [tauto|tauto|]. cbn [accept] in Hr. discriminate.
+    destruct (accept_verbatim e raw true ms Hr) as [-> | [-> | ->]]; [|reflexivity|]; cbn [accept] in Hr; discriminate.
   - destruct t; cbn in Hst; inversion Hst.
 Qed.
 
 (* ================= the BLIP delta branch (EE) ================= *)
-Lemma blip_rev_chk_visible : forall fixed b, blip_rev_gen fixed b = blip_rev_chk (visible fixed) b.
+Lemma blip_rev_chk_visible : forall fixed b, blip_rev_gen fixed b = blip_rev_chk blip_disallowed (visible fixed) b.
 Proof. reflexivity. Qed.
 
-Lemma blip_rev_chk_stored : forall chk b st, blip_rev_chk chk b = OStored st ->
-  forall k v, In (k, v) st -> exists esc, In (k, v, esc) b /\ (mem k blip_disallowed = true -> chk (k, v, esc) = false).
+Lemma blip_rev_chk_stored : forall dis chk b st, blip_rev_chk dis chk b = OStored st ->
+  forall k v, In (k, v) st -> exists esc, In (k, v, esc) b /\ (mem k dis = true -> chk (k, v, esc) = false).
 Proof.
-  intros chk b st H k v Hin. unfold blip_rev_chk in H.
-  destruct (existsb (fun m => mem (mkey m) blip_disallowed && chk m) b) eqn:Hex; [discriminate|].
+  intros dis chk b st H k v Hin. unfold blip_rev_chk in H.
+  destruct (existsb (fun m => mem (mkey m) dis && chk m) b) eqn:Hex; [discriminate|].
   assert (Hsub : exists esc, In (k, v, esc) b).
   { revert H.
     destruct (match find_key k_exp b with Some m => if chk m then extract_expiry b else ExpAbsent | None => ExpAbsent end);
@@ -447,7 +469,7 @@ Proof.
            end; exact Hin. }
   destruct Hsub as [esc Hb]. exists esc. split; [exact Hb|]. intros Hdis.
   destruct (chk (k, v, esc)) eqn:E; [|reflexivity]. exfalso.
-  assert (existsb (fun m => mem (mkey m) blip_disallowed && chk m) b = true).
+  assert (existsb (fun m => mem (mkey m) dis && chk m) b = true).
   { apply existsb_exists. exists (k, v, esc). split; [exact Hb|]. cbn [mkey fst]. now rewrite Hdis, E. }
   congruence.
 Qed.
@@ -459,7 +481,7 @@ Theorem delta_introduces_no_disallowed : forall src delta st,
   forall k v, In (k, v) st -> mem k blip_disallowed = true -> In (k, v) src /\ ~ In k (map mkey delta).
 Proof.
   intros src delta st H k v Hin Hdis. unfold blip_delta_ee in H.
-  destruct (blip_rev_chk_stored _ _ _ H k v Hin) as [esc [Hb Hn]]. specialize (Hn Hdis). cbn [mkey fst] in Hn.
+  destruct (blip_rev_chk_stored _ _ _ _ H k v Hin) as [esc [Hb Hn]]. specialize (Hn Hdis). cbn [mkey fst] in Hn.
   apply orb_false_iff in Hn as [_ Hnm].
   assert (Hnk : ~ In k (map mkey (dedupe delta))) by (intros Hk; apply mem_In in Hk; congruence).
   split.
@@ -469,3 +491,7 @@ Proof.
     + exfalso. apply Hnk. apply in_map_iff. now exists (k, v, esc).
   - intros Hk. apply Hnk. now apply dedupe_k_keys.
 Qed.
+
+(* ================= the switches ================= *)
+Theorem accept_gen_repaired : forall e t, accept_gen repaired e t = accept e t.
+Proof. intros e t. destruct e, t as [| | |raw tr]; try reflexivity; destruct tr; reflexivity. Qed.
